@@ -20,6 +20,7 @@ from lib import cZ, chex, clist, cnat
 BASE = ['int', 'nat', 'string', 'bool', 'unit']
 T_INT, T_NAT, T_STRING, T_BOOL, T_UNIT = (('int',), ('nat',), ('string',), ('bool',), ('unit',))
 T_BYTES = ('bytes',)
+T_MUTEZ, T_TIMESTAMP, T_ADDRESS, T_CHAIN_ID = (('mutez',), ('timestamp',), ('address',), ('chain_id',))
 T_OP = ('operation',)
 
 
@@ -29,7 +30,8 @@ def ty_mich(t) -> str:
     return '(' + t[0] + ' ' + ' '.join(ty_mich(x) for x in t[1:]) + ')'
 
 
-_TYC = {'int': 'TInt', 'nat': 'TNat', 'string': 'TString', 'bytes': 'TBytes', 'bool': 'TBool', 'unit': 'TUnit', 'operation': 'TOperation',
+_TYC = {'int': 'TInt', 'nat': 'TNat', 'string': 'TString', 'bytes': 'TBytes', 'mutez': 'TMutez', 'timestamp': 'TTimestamp',
+        'address': 'TAddress', 'chain_id': 'TChainId', 'bool': 'TBool', 'unit': 'TUnit', 'operation': 'TOperation',
         'pair': 'TPair', 'option': 'TOption', 'or': 'TOr', 'list': 'TList'}
 
 
@@ -60,7 +62,7 @@ def mich_str(s: str) -> str:
 
 def data_mich(d, paren: bool = True) -> str:
     k = d[0]
-    if k == 'int':
+    if k in ('int', 'mutez'):
         return str(d[1])
     if k == 'str':
         return mich_str(d[1])
@@ -91,6 +93,8 @@ def data_coq(d) -> str:
     k = d[0]
     if k == 'int':
         return f'(DInt {cZ(d[1])})'
+    if k == 'mutez':
+        return f'(DMutez {cZ(d[1])})'
     if k == 'str':
         return f'(DStr {chex(d[1].encode("ascii"))})'
     if k == 'bytes':
@@ -116,7 +120,8 @@ def data_coq(d) -> str:
 
 NULLARY = ['SWAP', 'PAIR', 'UNPAIR', 'CAR', 'CDR', 'SOME', 'UNIT', 'CONS', 'SIZE', 'ADD', 'SUB', 'MUL', 'NEG', 'ABS', 'ISNAT',
            'INT', 'EDIV', 'COMPARE', 'EQ', 'NEQ', 'LT', 'GT', 'LE', 'GE', 'AND', 'OR', 'XOR', 'NOT', 'CONCAT', 'FAILWITH',
-           'LSL', 'LSR', 'SLICE']
+           'LSL', 'LSR', 'SLICE',
+           'SUB_MUTEZ', 'AMOUNT', 'BALANCE', 'SENDER', 'SOURCE', 'SELF_ADDRESS', 'NOW', 'LEVEL', 'CHAIN_ID']
 
 
 def code_mich(i, rng: random.Random | None = None) -> str:
@@ -196,14 +201,14 @@ def code_prims(i, acc: set | None = None) -> set:
 # random types and values
 # --------------------------------------------------------------------------------------
 def comparable(t) -> bool:
-    if t[0] in ('list', 'operation'):
+    if t[0] in ('list', 'operation', 'address', 'chain_id'):   # address/chain_id: outside the fragment's COMPARE
         return False
     return all(comparable(x) for x in t[1:])
 
 
 def gen_type(rng: random.Random, depth: int = 2, comparable_only: bool = False):
     if depth <= 0 or rng.random() < 0.45:
-        return (rng.choice(['int', 'int', 'nat', 'nat', 'string', 'bytes', 'bool', 'unit']),)
+        return (rng.choice(['int', 'int', 'nat', 'nat', 'string', 'bytes', 'bool', 'unit', 'mutez', 'timestamp']),)
     k = rng.choice(['pair', 'pair', 'option', 'or', 'list'] if not comparable_only else ['pair', 'pair', 'option', 'or'])
     if k in ('pair', 'or'):
         return (k, gen_type(rng, depth - 1, comparable_only), gen_type(rng, depth - 1, comparable_only))
@@ -226,12 +231,34 @@ def gen_int(rng: random.Random, signed: bool) -> int:
     return v
 
 
+MUTEZ_MAX = 2 ** 63 - 1
+
+
+def gen_mutez(rng: random.Random) -> int:
+    r = rng.random()
+    if r < 0.5:
+        return rng.choice([0, 0, 1, 2, 3, 5, 10, 1000000])
+    if r < 0.8:
+        return rng.choice([MUTEZ_MAX, MUTEZ_MAX - 1, MUTEZ_MAX // 2, MUTEZ_MAX // 2 + 1, 2 ** 62, 2 ** 32, 3037000500, 3037000499])
+    return rng.randrange(0, MUTEZ_MAX + 1)
+
+
+def has_literal(t) -> bool:
+    if t[0] in ('address', 'chain_id', 'operation'):
+        return False
+    return all(has_literal(x) for x in t[1:])
+
+
 def gen_data(rng: random.Random, t, depth: int = 3):
     k = t[0]
     if k == 'int':
         return ('int', gen_int(rng, True))
     if k == 'nat':
         return ('int', gen_int(rng, False))
+    if k == 'mutez':
+        return ('mutez', gen_mutez(rng))
+    if k == 'timestamp':
+        return ('int', gen_int(rng, True))
     if k == 'string':
         if rng.random() < 0.7:
             return ('str', rng.choice(SMALL_STRS))
@@ -274,8 +301,10 @@ def near_data(rng: random.Random, t, d):
         if d[0] == 'left':
             return ('left', near_data(rng, t[1], d[1]))
         return ('right', near_data(rng, t[2], d[1]))
-    if k in ('int', 'nat') and rng.random() < 0.6:
+    if k in ('int', 'nat', 'timestamp') and rng.random() < 0.6:
         return ('int', max(0, d[1] + rng.choice([-1, 1])) if k == 'nat' else d[1] + rng.choice([-1, 1]))
+    if k == 'mutez' and rng.random() < 0.6:
+        return ('mutez', min(MUTEZ_MAX, max(0, d[1] + rng.choice([-1, 1]))))
     if k == 'string' and rng.random() < 0.6:
         return ('str', d[1] + rng.choice(['', 'a', ' ', '~'])) if rng.random() < 0.5 else ('str', d[1][:-1])
     if k == 'bytes' and rng.random() < 0.6:
@@ -319,6 +348,18 @@ def ty_uncomb(n, t):
     return None if r is None else [t[1]] + r
 
 
+# overloads on mutez / timestamp: (top, second) -> [(instruction, result type)]
+MIXED_ARITH = {
+    ('mutez', 'mutez'): [('ADD', T_MUTEZ), ('SUB_MUTEZ', ('option', T_MUTEZ)), ('SUB_MUTEZ', ('option', T_MUTEZ)),
+                         ('EDIV', ('option', ('pair', T_NAT, T_MUTEZ)))],
+    ('mutez', 'nat'): [('MUL', T_MUTEZ), ('EDIV', ('option', ('pair', T_MUTEZ, T_MUTEZ)))],
+    ('nat', 'mutez'): [('MUL', T_MUTEZ)],
+    ('timestamp', 'int'): [('ADD', T_TIMESTAMP), ('SUB', T_TIMESTAMP)],
+    ('int', 'timestamp'): [('ADD', T_TIMESTAMP)],
+    ('timestamp', 'timestamp'): [('SUB', T_INT)],
+}
+
+
 # --------------------------------------------------------------------------------------
 # program generator
 # --------------------------------------------------------------------------------------
@@ -357,9 +398,35 @@ class Gen:
         return out
 
     def push(self, t):
-        if t[0] == 'list' and t[1][0] == 'operation':
-            return ('NIL', T_OP)
-        return ('PUSH', t, gen_data(self.rng, t))
+        """one instruction (possibly a sequence) that puts a value of type t on the stack"""
+        if has_literal(t):
+            return ('PUSH', t, gen_data(self.rng, t))
+        return ('SEQ', self.produce(t))
+
+    def produce(self, t):
+        rng = self.rng
+        k = t[0]
+        if has_literal(t):
+            return [('PUSH', t, gen_data(rng, t))]
+        if k == 'address':
+            return [(rng.choice(['SENDER', 'SOURCE', 'SELF_ADDRESS']),)]
+        if k == 'chain_id':
+            return [('CHAIN_ID',)]
+        if k == 'pair':
+            return self.produce(t[2]) + self.produce(t[1]) + [('PAIR',)]
+        if k == 'option':
+            return [('NONE', t[1])] if rng.random() < 0.3 else self.produce(t[1]) + [('SOME',)]
+        if k == 'or':
+            if rng.random() < 0.5:
+                return self.produce(t[1]) + [('LEFT', t[2])]
+            return self.produce(t[2]) + [('RIGHT', t[1])]
+        if k == 'list':
+            out = [('NIL', t[1])]
+            if t[1][0] != 'operation':
+                for _ in range(rng.choice([0, 1, 2])):
+                    out += self.produce(t[1]) + [('CONS',)]
+            return out
+        raise ValueError(t)
 
     def body_to(self, start: list, target: list, size: int, allow_fail: bool = True):
         """a sequence from `start` to exactly `target` (or failing)."""
@@ -401,7 +468,8 @@ class Gen:
         def add(w, f):
             cands.append((w, f))
 
-        add(3 if len(s) < 4 else 1, lambda: ([self.push(gen_type(rng))], None))
+        add(3 if len(s) < 4 else 1, lambda: self._push_any(s))
+        add(0.8, lambda: self._env(s))
         add(0.4, lambda: ([('UNIT',)], [T_UNIT] + s))
         add(0.5, lambda: self._nil(s))
         add(0.4, lambda: self._none(s))
@@ -431,6 +499,8 @@ class Gen:
                 add(3.0, lambda: ([('CONS',)], s[1:]))
             if top[0] in ('int', 'nat') and snd[0] in ('int', 'nat'):
                 add(4.0, lambda: self._arith(s))
+            if (top[0], snd[0]) in MIXED_ARITH:
+                add(4.0, lambda: self._arith_mixed(s))
             if top == T_BOOL and snd == T_BOOL:
                 add(3.0, lambda: ([(rng.choice(['AND', 'OR', 'XOR']),)], s[1:]))
             if top in (T_STRING, T_BYTES) and snd == top:
@@ -491,11 +561,23 @@ class Gen:
             if res is None:
                 continue
             ins, new = res
-            if new is None:  # plain push: compute the type
-                new = [ins[0][1]] + s
             self.budget -= sum(code_size(i) for i in ins)
             return ins, new
         return None
+
+    def _push_any(self, s):
+        t = gen_type(self.rng)
+        return [('PUSH', t, gen_data(self.rng, t))], [t] + s
+
+    def _env(self, s):
+        op, t = self.rng.choice([('AMOUNT', T_MUTEZ), ('BALANCE', T_MUTEZ), ('SENDER', T_ADDRESS), ('SOURCE', T_ADDRESS),
+                                 ('SELF_ADDRESS', T_ADDRESS), ('NOW', T_TIMESTAMP), ('LEVEL', T_NAT), ('CHAIN_ID', T_CHAIN_ID)])
+        return [(op,)], [t] + s
+
+    def _arith_mixed(self, s):
+        ops = MIXED_ARITH[(s[0][0], s[1][0])]
+        op, t = self.rng.choice(ops)
+        return [(op,)], [t] + s[2:]
 
     def _shift(self, s):
         # LSL/LSR fail (run-time error, not FAILWITH) when the shift exceeds 256: mostly push a small shift first
@@ -699,9 +781,32 @@ class Gen:
         body, res = self.body_to([a] + rest, rest, self.rng.randrange(0, 3))
         if res == FAIL:
             return [('LOOP_LEFT', body)], [b] + rest
-        tail = [('PUSH', ot, ('right', gen_data(self.rng, b)))]
-        self.budget -= 1
+        tail = self.produce(b) + [('RIGHT', a)]
+        self.budget -= 2
         return [('LOOP_LEFT', ('SEQ', body[1] + tail))], [b] + rest
+
+
+ADDRESSES = ['tz1grSQDByRpnVs7sPtaprNZRp531ZKz6Jmm', 'tz1burnburnburnburnburnburnburjAYjjX', 'KT1BEqzn5Wx8uJrZNvuS9DVHmLvG9td3fDLi',
+             'tz2FCNBrERXtaTtNX6iimR1UJ5JSDxvdHM93', 'tz3WXYtyDUNL91qfiCJtVUX746QpNv5i5ve5', 'KT1VG2WtYdSWz5E7chTeAdDPZNy2MpP8pTfL']
+CHAIN_IDS = ['NetXdQprcVkpaWU', 'NetXynUjJNZm7wi', 'NetXSgo1ZT2DRUG']
+DEFAULT_ENV = {'amount': 0, 'balance': 0, 'sender': ADDRESSES[0], 'source': ADDRESSES[0], 'self': ADDRESSES[2], 'now': 0, 'level': 1,
+               'chain_id': CHAIN_IDS[0]}
+
+
+def gen_env(rng: random.Random) -> dict:
+    return {'amount': gen_mutez(rng), 'balance': gen_mutez(rng), 'sender': rng.choice(ADDRESSES), 'source': rng.choice(ADDRESSES),
+            'self': rng.choice(ADDRESSES), 'now': gen_int(rng, True) if rng.random() < 0.5 else rng.randrange(0, 2 ** 33),
+            'level': gen_int(rng, False), 'chain_id': rng.choice(CHAIN_IDS)}
+
+
+def env_coq(e: dict) -> str:
+    return (f"(mkenv {cZ(e['amount'])} {cZ(e['balance'])} {chex(e['sender'].encode())} {chex(e['source'].encode())} "
+            f"{chex(e['self'].encode())} {cZ(e['now'])} {cZ(e['level'])} {chex(e['chain_id'].encode())})")
+
+
+def set_env(ctx, e: dict) -> None:
+    ctx.amount, ctx.balance, ctx.sender, ctx.source = e['amount'], e['balance'], e['sender'], e['source']
+    ctx.address, ctx.now, ctx.level, ctx.chain_id = e['self'], e['now'], e['level'], e['chain_id']
 
 
 def gen_case(rng: random.Random, max_size: int, strict: bool = True):
@@ -717,7 +822,7 @@ def gen_case(rng: random.Random, max_size: int, strict: bool = True):
         inputs.insert(0, (t, near_data(rng, t, d)))
     g = Gen(rng, max_size, strict)
     code, res = g.seq([t for t, _ in inputs], max_size)
-    return {'inputs': inputs, 'code': ('SEQ', code), 'result': res, 'retyping_map': g.retyping_map}
+    return {'inputs': inputs, 'code': ('SEQ', code), 'result': res, 'retyping_map': g.retyping_map, 'env': gen_env(rng)}
 
 
 def known_finding_cases(rng: random.Random, n: int):
@@ -774,6 +879,15 @@ def obj_pval(v) -> str:
         return f'(PInt {cZ(int(v.value))})'
     if p == 'nat':
         return f'(PNat {cZ(int(v.value))})'
+    if p == 'mutez':
+        return f'(PMutez {cZ(int(v.value))})'
+    if p == 'timestamp':
+        return f'(PTimestamp {cZ(int(v.value))})'
+    if p in ('address', 'chain_id'):
+        try:
+            return f'({"PAddress" if p == "address" else "PChainId"} {chex(v.value.encode("ascii"))})'
+        except Exception as e:  # noqa: BLE001
+            raise Unrenderable(f'non-ASCII {p} {v.value!r}') from e
     if p == 'string':
         try:
             return f'(PStr {chex(v.value.encode("ascii"))})'
@@ -843,6 +957,7 @@ def run_impl(case) -> dict:
 
     box = _hook_failwith()
     it = Interpreter()
+    set_env(it.context, case.get('env') or DEFAULT_ENV)
     if case['inputs']:
         # inputs are pushed bottom first so that inputs[0] ends on top
         pre = ' ; '.join(f'PUSH {ty_mich(t)} {data_mich(d)}' for t, d in reversed(case['inputs']))
@@ -883,7 +998,7 @@ def obs_coq(o: dict) -> str:
 
 def case_coq(case) -> str:
     ins = clist(f'({ty_coq(t)}, {data_coq(d)})' for t, d in case['inputs'])
-    return f'({code_coq(case["code"])}, {ins})'
+    return f'({env_coq(case.get("env") or DEFAULT_ENV)}, ({code_coq(case["code"])}, {ins}))'
 
 
 def case_text(case) -> str:
@@ -895,7 +1010,10 @@ def repro(case) -> str:
     pre = ' ; '.join(f'PUSH {ty_mich(t)} {data_mich(d)}' for t, d in reversed(case['inputs']))
     code = case.get('text') or code_mich(case['code'])
     a = f"i.execute({pre!r}); " if pre else ''
-    return f"from pytezos.michelson.repl import Interpreter; i=Interpreter(); {a}r=i.execute({code!r}); print(r.error, r.stack)"
+    e = case.get('env') or DEFAULT_ENV
+    envs = (f"c=i.context; c.amount, c.balance, c.sender, c.source, c.address, c.now, c.level, c.chain_id = "
+            f"{e['amount']}, {e['balance']}, {e['sender']!r}, {e['source']!r}, {e['self']!r}, {e['now']}, {e['level']}, {e['chain_id']!r}; ")
+    return f"from pytezos.michelson.repl import Interpreter; i=Interpreter(); {envs}{a}r=i.execute({code!r}); print(r.error, r.stack)"
 
 
 # --------------------------------------------------------------------------------------
@@ -904,7 +1022,7 @@ def repro(case) -> str:
 def data_micheline(d) -> Any:
     """data tuple -> Micheline JSON (canonical binary pairs)"""
     k = d[0]
-    if k == 'int':
+    if k in ('int', 'mutez'):
         return {'int': str(d[1])}
     if k == 'str':
         return {'string': d[1]}
@@ -929,8 +1047,10 @@ def data_of_micheline(t, m):
     """Micheline JSON value of type t -> data tuple; raises Unrenderable when it is not a value of that type."""
     k = t[0]
     try:
-        if k in ('int', 'nat'):
+        if k in ('int', 'nat', 'timestamp'):
             return ('int', int(m['int']))
+        if k == 'mutez':
+            return ('mutez', int(m['int']))
         if k == 'string':
             s = m['string']
             s.encode('ascii')
@@ -984,7 +1104,7 @@ def gen_contract(rng: random.Random, max_size: int):
         code += [('NIL', T_OP), ('PAIR',)]
     pv, sv = gen_data(rng, p), gen_data(rng, s)
     return {'inputs': [(('pair', p, s), ('pair', pv, sv))], 'code': ('SEQ', code), 'result': None, 'retyping_map': False,
-            'contract': {'parameter': p, 'storage': s, 'pv': pv, 'sv': sv}}
+            'contract': {'parameter': p, 'storage': s, 'pv': pv, 'sv': sv}, 'env': gen_env(rng)}
 
 
 def run_contract(case) -> dict:
@@ -997,8 +1117,11 @@ def run_contract(case) -> dict:
     del box[:]
     script = f"parameter {ty_mich(c['parameter'])} ; storage {ty_mich(c['storage'])} ; code {code_mich(case['code'])}"
     case['script'] = script
-    ops, storage, lazy, stdout, err = Interpreter.run_code(parameter=data_micheline(c['pv']), storage=data_micheline(c['sv']),
-                                                            script=michelson_to_micheline(script))
+    e = case.get('env') or DEFAULT_ENV
+    ops, storage, lazy, stdout, err = Interpreter.run_code(
+        parameter=data_micheline(c['pv']), storage=data_micheline(c['sv']), script=michelson_to_micheline(script),
+        output_mode='optimized', amount=e['amount'], balance=e['balance'], sender=e['sender'], source=e['source'],
+        chain_id=e['chain_id'], now=e['now'], level=e['level'], address=e['self'])
     if err is None:
         try:
             return {'kind': 'done', 'storage': data_of_micheline(c['storage'], storage), 'micheline': storage, 'operations': ops}
@@ -1019,14 +1142,15 @@ def contract_obs_coq(o: dict) -> str:
         return f'(Done [VPair (VList []) (value_of_data {data_coq(o["storage"])})])'
     if o['kind'] == 'failwith':
         return f'(Failed (erase {o["value"]}))'
-    return 'Stuck'
+    return 'RtError'
 
 
 def contract_repro(case) -> str:
     c = case['contract']
     return (f"from pytezos.michelson.repl import Interpreter; from pytezos.michelson.parse import michelson_to_micheline as m; "
             f"print(Interpreter.run_code(parameter={data_micheline(c['pv'])!r}, "
-            f"storage={data_micheline(c['sv'])!r}, script=m({case.get('script')!r}))[:2])")
+            f"storage={data_micheline(c['sv'])!r}, script=m({case.get('script')!r}), output_mode='optimized', "
+            f"**{ {k if k != 'self' else 'address': v for k, v in (case.get('env') or DEFAULT_ENV).items()} !r})[:2])")
 
 
 # --------------------------------------------------------------------------------------
@@ -1052,6 +1176,32 @@ def instr_sweep(rng: random.Random, thorough: bool = False):
                     if op != 'EDIV' and not thorough and rng.random() < 0.6:
                         continue
                     add([((ta,), ('int', a)), ((tb,), ('int', b))], [(op,)])
+    M = MUTEZ_MAX
+    mutezs = [0, 1, 2, 3, 7, 1000000, 3037000499, 3037000500, M // 2, M // 2 + 1, M - 1, M]
+    for a in mutezs:
+        for b in mutezs:
+            if thorough or a in (0, M) or b in (0, M) or rng.random() < 0.25:
+                for op in ('ADD', 'SUB_MUTEZ', 'EDIV', 'COMPARE'):
+                    add([(T_MUTEZ, ('mutez', a)), (T_MUTEZ, ('mutez', b))], [(op,)])
+        for b in nats:
+            if thorough or rng.random() < 0.5:
+                add([(T_MUTEZ, ('mutez', a)), (T_NAT, ('int', b))], [(rng.choice(['MUL', 'EDIV']),)])
+                add([(T_NAT, ('int', b)), (T_MUTEZ, ('mutez', a))], [('MUL',)])
+    for a in ints:
+        for b in ints:
+            if thorough or rng.random() < 0.15:
+                add([(T_TIMESTAMP, ('int', a)), (T_INT, ('int', b))], [(rng.choice(['ADD', 'SUB']),)])
+                add([(T_INT, ('int', b)), (T_TIMESTAMP, ('int', a))], [('ADD',)])
+                add([(T_TIMESTAMP, ('int', a)), (T_TIMESTAMP, ('int', b))], [(rng.choice(['SUB', 'COMPARE']),)])
+    for op in ('AMOUNT', 'BALANCE', 'SENDER', 'SOURCE', 'SELF_ADDRESS', 'NOW', 'LEVEL', 'CHAIN_ID'):
+        for _ in range(6 if thorough else 3):
+            add([], [(op,)])
+            out[-1]['env'] = gen_env(rng)
+    for _ in range(10 if thorough else 4):
+        add([], [('AMOUNT',), ('BALANCE',), ('ADD',)])
+        out[-1]['env'] = gen_env(rng)
+        add([], [('SENDER',), ('SOURCE',), ('PAIR',), ('SELF_ADDRESS',), ('SOME',), ('NOW',), ('LEVEL',), ('INT',), ('ADD',), ('CHAIN_ID',), ('PAIRN', 4)])
+        out[-1]['env'] = gen_env(rng)
     for z in ints:
         for op in ('NEG', 'ABS', 'ISNAT', 'EQ', 'NEQ', 'LT', 'GT', 'LE', 'GE'):
             add([(T_INT, ('int', z))], [(op,)])
@@ -1092,7 +1242,7 @@ def instr_sweep(rng: random.Random, thorough: bool = False):
             for op in ('AND', 'OR', 'XOR'):
                 add([(T_BOOL, ('bool', a)), (T_BOOL, ('bool', b))], [(op,)])
     # COMPARE on every comparable shape
-    shapes = [T_INT, T_NAT, T_STRING, T_BYTES, T_BOOL, T_UNIT, ('pair', T_BYTES, T_NAT), ('pair', T_INT, T_STRING), ('pair', ('pair', T_NAT, T_BOOL), T_INT),
+    shapes = [T_INT, T_NAT, T_MUTEZ, T_TIMESTAMP, ('option', T_MUTEZ), T_STRING, T_BYTES, T_BOOL, T_UNIT, ('pair', T_BYTES, T_NAT), ('pair', T_INT, T_STRING), ('pair', ('pair', T_NAT, T_BOOL), T_INT),
               ('option', T_NAT), ('option', T_UNIT), ('option', ('option', T_UNIT)), ('or', T_INT, T_BOOL), ('or', T_UNIT, T_UNIT),
               ('pair', ('option', T_INT), ('or', T_STRING, T_NAT)), ('or', ('pair', T_UNIT, T_INT), ('option', T_STRING)),
               ('pair', T_UNIT, ('option', T_UNIT))]
